@@ -1,1 +1,646 @@
-//! C12: not implemented yet.
+//! C12 — NTP version negotiation follows the upgrade protocol.
+//!
+//! Engine E-SEQ: explicit-state search over the REAL `NtpSource` (driven through
+//! `handle_timer` / `handle_incoming`), to FIXPOINT, for the five configurations plain V4,
+//! plain V5, automatic upgrade, NTS with negotiated V4, NTS with negotiated V5.
+//!
+//! Events: `T` (timer) and answer datagrams assembled at byte level from the request the
+//! source emitted (see `gd_probe_source.rs`): {matching, stale (previous request), unrelated
+//! identifier} x {v3, v4, v4+upgrade marker, v5} x {usable, KISS "XXXX", KISS DENY, client
+//! mode, stratum 17}; for NTS sources authenticated answers {matching / unrelated id} x
+//! {matching / wrong unique identifier} x {v4, v5} x {usable, KISS, DENY} + unauthenticated
+//! and replayed ones.
+//!
+//! `NtpSource` cannot be cloned: a state is represented by the event history reaching it and
+//! successors are computed by replaying the history on a fresh source (random identifiers
+//! are read back from the emitted requests).
+//!
+//! Oracle: a reference automaton written from the STATEMENT (`Spec` below), not from the
+//! code. Where the statement is silent the automaton is nondeterministic and the check is a
+//! refinement check: the set of reference states compatible with everything observed so far
+//! must never become empty. Observed are (a) version + upgrade marker of every request sent,
+//! (b) whether an answer produced a measurement.
+use std::collections::BTreeMap;
+
+use super::common::{self, Ctx};
+use crate::source::verif_probe::gd::{
+    self as rig, Act, Ans, IdSel, Kiss, Mode, Pv, Rig, UidSel, View,
+};
+
+// ---------------------------------------------------------------------------------------
+// reference automaton (from the statement)
+// ---------------------------------------------------------------------------------------
+
+/// Phases of the reference automaton.
+///
+/// * `Fixed4` / `Fixed5` – "configured for NTPv4 only ever sends NTPv4 … NTPv5 only ever
+///   sends NTPv5"; also "an NTS source uses the version negotiated during key exchange".
+/// * `Up(n)` – automatic mode, "sends NTPv4 upgrade requests"; n = matching answers without
+///   the marker so far (0..=7); "returns to plain NTPv4 after eight matching answers without it".
+/// * `Trial(k)` – "switches to NTPv5 only after a matching answer carrying the upgrade
+///   marker"; k = NTPv5 polls sent since the switch that got no matching NTPv5 answer;
+///   "falls back to NTPv4 if the upgraded association misses two polls before its first
+///   matching NTPv5 answer".
+/// * `Plain4` – plain NTPv4 for good (after 8 answers without marker, or after fallback).
+/// * `Conf5` – NTPv5 for good (first matching NTPv5 answer seen).
+#[derive(Clone, Copy, Debug, PartialEq, Eq, Hash, PartialOrd, Ord)]
+pub(super) enum Phase {
+    Fixed4,
+    Fixed5,
+    Up(u8),
+    Trial(u8),
+    Plain4,
+    Conf5,
+}
+
+#[derive(Clone, Copy, Debug, PartialEq, Eq, Hash, PartialOrd, Ord)]
+pub(super) struct Spec {
+    pub phase: Phase,
+    /// the most recent request has not produced a measurement yet (C08: "each request
+    /// yields at most one measurement")
+    pub open: bool,
+}
+
+/// What the harness knows about an answer by construction.
+#[derive(Clone, Copy, Debug)]
+pub(super) struct Facts {
+    /// identifier (origin timestamp / client cookie, and unique identifier + authenticity
+    /// for NTS) is that of the most recent request, and it arrives inside the poll window
+    pub fresh: bool,
+    pub version: u8,
+    /// v4 answer whose reference timestamp is the upgrade marker
+    pub marker: bool,
+    /// server mode, not a KISS code, stratum <= 16
+    pub usable: bool,
+}
+
+impl Spec {
+    pub(super) fn initial(mode: Mode) -> Spec {
+        Spec {
+            phase: match mode {
+                Mode::V4 | Mode::NtsV4 => Phase::Fixed4,
+                Mode::V5 | Mode::NtsV5 => Phase::Fixed5,
+                Mode::Auto => Phase::Up(0),
+            },
+            open: false,
+        }
+    }
+
+    pub(super) fn expected_version(&self) -> u8 {
+        match self.phase {
+            Phase::Fixed4 | Phase::Up(_) | Phase::Plain4 => 4,
+            Phase::Fixed5 | Phase::Trial(_) | Phase::Conf5 => 5,
+        }
+    }
+
+    /// A timer that emits a request: (version it must have, required value of the upgrade
+    /// marker if the statement fixes it, successor).
+    pub(super) fn on_poll(&self) -> (u8, Option<bool>, Spec) {
+        let (v, m, phase) = match self.phase {
+            // a V4-only source "only ever sends NTPv4"; whether it may carry the marker is
+            // not stated (it never does; counted, not judged)
+            Phase::Fixed4 => (4, None, Phase::Fixed4),
+            Phase::Fixed5 => (5, None, Phase::Fixed5),
+            Phase::Up(n) => (4, Some(true), Phase::Up(n)),
+            Phase::Trial(k) if k >= 2 => (4, Some(false), Phase::Plain4),
+            Phase::Trial(k) => (5, None, Phase::Trial(k + 1)),
+            Phase::Plain4 => (4, Some(false), Phase::Plain4),
+            Phase::Conf5 => (5, None, Phase::Conf5),
+        };
+        (v, m, Spec { phase, open: true })
+    }
+
+    fn count(n: u8) -> Phase {
+        if n + 1 >= 8 { Phase::Plain4 } else { Phase::Up(n + 1) }
+    }
+
+    /// All (measurement produced?, successor) pairs the statement allows for this answer.
+    pub(super) fn on_answer(&self, f: &Facts) -> Vec<(bool, Spec)> {
+        let ignore = vec![(false, *self)];
+        if !(f.fresh && self.open) {
+            // not an answer to the most recent request / late / replay of a used answer
+            return ignore;
+        }
+        let exp = self.expected_version();
+        let as_expected = |marker: bool| -> Vec<(bool, Spec)> {
+            if f.usable {
+                // the one measurement of this request; deterministic
+                let phase = match self.phase {
+                    Phase::Up(_) if marker => Phase::Trial(0),
+                    Phase::Up(n) => Spec::count(n),
+                    Phase::Trial(_) => Phase::Conf5,
+                    p => p,
+                };
+                vec![(true, Spec { phase, open: false })]
+            } else {
+                // KISS / wrong mode / bad stratum: never a measurement. Whether such an
+                // answer counts as "matching answer" for the negotiation is not stated:
+                // allow "ignored" and "counted"; for a marker-carrying one additionally any
+                // budget of already-missed polls (the statement does not say how polls
+                // missed before the switch count).
+                let phases: Vec<Phase> = match self.phase {
+                    Phase::Up(n) if marker => {
+                        vec![Phase::Up(n), Phase::Trial(0), Phase::Trial(1), Phase::Trial(2)]
+                    }
+                    Phase::Up(n) => vec![Phase::Up(n), Spec::count(n)],
+                    Phase::Trial(k) => vec![Phase::Trial(k), Phase::Conf5],
+                    p => vec![p],
+                };
+                phases.into_iter().map(|phase| (false, Spec { phase, open: true })).collect()
+            }
+        };
+        if f.version == exp {
+            as_expected(f.version == 4 && f.marker)
+        } else if f.version == 3 && exp == 4 {
+            // NTPv3 shares the NTPv4 header. The statement does not say whether an NTPv3
+            // answer to an NTPv4 request is "the expected version": allow ignoring it and
+            // treating it like the NTPv4 answer without marker.
+            let mut v = ignore;
+            v.extend(as_expected(false));
+            v
+        } else {
+            ignore
+        }
+    }
+}
+
+/// The set of reference states compatible with all observations so far.
+#[derive(Clone, Debug, PartialEq, Eq, Hash)]
+pub(super) struct SpecSet(pub Vec<Spec>);
+
+impl SpecSet {
+    pub(super) fn initial(mode: Mode) -> SpecSet {
+        SpecSet(vec![Spec::initial(mode)])
+    }
+
+    fn norm(mut v: Vec<Spec>) -> Vec<Spec> {
+        v.sort();
+        v.dedup();
+        v
+    }
+
+    /// The source emitted a request of `version` with/without the upgrade marker.
+    pub(super) fn poll(&mut self, version: u8, marker: bool) -> Result<(), String> {
+        let next: Vec<Spec> = self
+            .0
+            .iter()
+            .filter_map(|s| {
+                let (v, m, n) = s.on_poll();
+                (v == version && m.map_or(true, |m| m == marker)).then_some(n)
+            })
+            .collect();
+        if next.is_empty() {
+            let want: Vec<String> = self
+                .0
+                .iter()
+                .map(|s| {
+                    let (v, m, _) = s.on_poll();
+                    format!("{:?}->v{}{}", s.phase, v, match m {
+                        Some(true) => "+marker",
+                        Some(false) => " plain",
+                        None => "",
+                    })
+                })
+                .collect();
+            return Err(format!(
+                "sent v{version}{} but the reference allows only [{}]",
+                if marker { "+marker" } else { "" },
+                want.join(", ")
+            ));
+        }
+        self.0 = Self::norm(next);
+        Ok(())
+    }
+
+    pub(super) fn answer(&mut self, f: &Facts, accepted: bool) -> Result<(), String> {
+        let next: Vec<Spec> = self
+            .0
+            .iter()
+            .flat_map(|s| s.on_answer(f))
+            .filter(|(acc, _)| *acc == accepted)
+            .map(|(_, s)| s)
+            .collect();
+        if next.is_empty() {
+            return Err(format!(
+                "answer {:?} {} but reference states {:?} all require the opposite",
+                f,
+                if accepted { "produced a measurement" } else { "was not used" },
+                self.0
+            ));
+        }
+        self.0 = Self::norm(next);
+        Ok(())
+    }
+
+    pub(super) fn expects(&self, version: u8) -> bool {
+        self.0.iter().any(|s| s.expected_version() == version)
+    }
+    pub(super) fn any_open(&self) -> bool {
+        self.0.iter().any(|s| s.open)
+    }
+}
+
+// ---------------------------------------------------------------------------------------
+// events
+// ---------------------------------------------------------------------------------------
+
+#[derive(Clone, Copy, Debug, PartialEq, Eq)]
+enum Ev {
+    Timer,
+    Ans(Ans),
+}
+
+impl Ev {
+    fn code(&self) -> String {
+        match self {
+            Ev::Timer => "T".to_string(),
+            Ev::Ans(a) => a.code(),
+        }
+    }
+    fn parse(s: &str) -> Option<Ev> {
+        if s == "T" { Some(Ev::Timer) } else { Ans::parse(s).map(Ev::Ans) }
+    }
+}
+
+#[derive(Clone, Copy)]
+enum Kind {
+    Usable,
+    KissX,
+    KissDeny,
+    ClientMode,
+    Stratum17,
+}
+
+fn kind_fields(k: Kind) -> (u8, u8, Kiss) {
+    match k {
+        Kind::Usable => (4, 1, Kiss::Unknown),
+        Kind::KissX => (4, 0, Kiss::Unknown),
+        Kind::KissDeny => (4, 0, Kiss::Deny),
+        Kind::ClientMode => (3, 1, Kiss::Unknown),
+        Kind::Stratum17 => (4, 17, Kiss::Unknown),
+    }
+}
+
+fn alphabet(mode: Mode, quick: bool) -> Vec<Ev> {
+    let mut v = vec![Ev::Timer];
+    let versions = [(4u8, false), (4, true), (5, false), (3, false)];
+    if !mode.nts() {
+        // Quick tier, automatic mode only: DENY (whose only extra effect is the deny flag,
+        // doubling the state space) and stratum 17 (same path as client mode up to the last
+        // branch) are left to the thorough tier; V4 / V5 modes keep all five kinds.
+        let kinds: &[Kind] = if quick && mode == Mode::Auto {
+            &[Kind::Usable, Kind::KissX, Kind::ClientMode]
+        } else {
+            &[Kind::Usable, Kind::KissX, Kind::KissDeny, Kind::ClientMode, Kind::Stratum17]
+        };
+        for (ver, marker) in versions {
+            for k in kinds.iter().copied() {
+                let (m, s, kiss) = kind_fields(k);
+                v.push(Ev::Ans(Ans::plain(IdSel::Match, ver, marker, m, s, kiss)));
+            }
+        }
+        for id in [IdSel::Stale, IdSel::Random] {
+            for (ver, marker) in versions {
+                for k in [Kind::Usable, Kind::KissX] {
+                    let (m, s, kiss) = kind_fields(k);
+                    v.push(Ev::Ans(Ans::plain(id, ver, marker, m, s, kiss)));
+                }
+            }
+        }
+    } else {
+        for id in [IdSel::Match, IdSel::Random] {
+            for uid in [UidSel::Match, UidSel::Wrong] {
+                for ver in [4u8, 5] {
+                    for k in [Kind::Usable, Kind::KissX, Kind::KissDeny] {
+                        let (m, s, kiss) = kind_fields(k);
+                        v.push(Ev::Ans(Ans { id, version: ver, marker: false, mode: m, stratum: s, kiss, auth: true, uid }));
+                    }
+                }
+            }
+        }
+        for ver in [4u8, 5] {
+            // unauthenticated, everything else right
+            v.push(Ev::Ans(Ans { id: IdSel::Match, version: ver, marker: false, mode: 4, stratum: 1, kiss: Kiss::Unknown, auth: false, uid: UidSel::Match }));
+            // authentic answer to the previous request, replayed
+            v.push(Ev::Ans(Ans { id: IdSel::Stale, version: ver, marker: false, mode: 4, stratum: 1, kiss: Kiss::Unknown, auth: true, uid: UidSel::Match }));
+        }
+        v.push(Ev::Ans(Ans::plain(IdSel::Match, 3, false, 4, 1, Kiss::Unknown)));
+    }
+    v
+}
+
+// ---------------------------------------------------------------------------------------
+// one step = one call into the real source + the reference
+// ---------------------------------------------------------------------------------------
+
+#[derive(Default)]
+struct Local(BTreeMap<&'static str, u64>);
+impl Local {
+    fn inc(&mut self, k: &'static str) {
+        *self.0.entry(k).or_insert(0) += 1;
+    }
+    fn flush(self, ctx: &Ctx) {
+        for (k, v) in self.0 {
+            ctx.add(k, v);
+        }
+    }
+}
+
+enum Step {
+    NotApplicable,
+    Ok(String),
+    Violation(&'static str, String),
+}
+
+fn facts_of(mode: Mode, a: &Ans) -> Facts {
+    let fresh = a.id == IdSel::Match && (!mode.nts() || (a.uid == UidSel::Match && a.auth));
+    Facts { fresh, version: a.version, marker: a.marker, usable: a.usable_fields() }
+}
+
+fn step(mode: Mode, r: &mut Rig, spec: &mut SpecSet, ev: &Ev, st: &mut Local) -> Step {
+    match ev {
+        Ev::Timer => {
+            let obs = r.timer();
+            match obs.sent {
+                Some(i) => {
+                    let (ver, marker) = (r.requests[i].version, r.requests[i].marker);
+                    if !obs.is_poll() {
+                        return Step::Violation("C12:timer-actions", format!("timer sent a request but returned {:?}", obs.acts));
+                    }
+                    if r.requests[i].mode_bits != 3 {
+                        return Step::Violation("C12:timer-actions", format!("request has mode bits {}", r.requests[i].mode_bits));
+                    }
+                    st.inc(match (ver, marker) {
+                        (4, false) => "sent_v4_plain",
+                        (4, true) => "sent_v4_upgrade_request",
+                        (5, _) => "sent_v5",
+                        _ => "sent_other_version",
+                    });
+                    if mode == Mode::V4 && marker {
+                        st.inc("fixed_v4_requests_with_marker");
+                    }
+                    let before = spec.clone();
+                    if let Err(e) = spec.poll(ver, marker) {
+                        let class = match mode {
+                            Mode::V4 | Mode::V5 => "C12:fixed-mode-sent-version",
+                            Mode::Auto => "C12:auto-sent-version",
+                            Mode::NtsV4 | Mode::NtsV5 => "C12:nts-sent-version",
+                        };
+                        return Step::Violation(class, e);
+                    }
+                    if before.0.iter().any(|s| matches!(s.phase, Phase::Trial(k) if k >= 2)) && ver == 4 {
+                        st.inc("fallbacks_to_v4");
+                        // observation (allowed by the nondeterministic reference, see
+                        // notes/gd.md): fallback although fewer than two NTPv5 polls were sent
+                        // since the switch — only reachable through an unusable answer
+                        // carrying the marker while polls were already being missed
+                        let v5_polls = r.requests[..i].iter().rev().take_while(|q| q.version == 5).count();
+                        if v5_polls < 2 {
+                            st.inc("fallbacks_to_v4_before_two_v5_polls_after_unusable_marker_answer");
+                        }
+                    }
+                    Step::Ok(format!("sent v{ver}{}", if marker { "+marker" } else { "" }))
+                }
+                None => {
+                    if !(obs.is_reset() || obs.is_demobilize()) {
+                        return Step::Violation("C12:timer-actions", format!("timer returned {:?}", obs.acts));
+                    }
+                    st.inc("timer_without_request_reset_or_demobilize");
+                    Step::Ok(format!("{:?}", obs.acts))
+                }
+            }
+        }
+        Ev::Ans(a) => {
+            let Some((_bytes, obs)) = r.deliver(a) else {
+                return Step::NotApplicable;
+            };
+            let f = facts_of(mode, a);
+            let accepted = obs.accepted();
+            if accepted {
+                st.inc(match a.version {
+                    3 => "accepted_v3",
+                    4 => "accepted_v4",
+                    _ => "accepted_v5",
+                });
+            } else if f.fresh && f.usable && spec.any_open() {
+                st.inc("rejected_fresh_usable_answer_of_unexpected_version");
+            } else {
+                st.inc("answers_not_used");
+            }
+            let before = spec.clone();
+            if let Err(e) = spec.answer(&f, accepted) {
+                let class = if accepted && !before.expects(a.version) && !(a.version == 3 && before.expects(4)) {
+                    "C12:accepted-unexpected-version"
+                } else if accepted {
+                    "C12:accepted-not-fresh-or-unusable"
+                } else {
+                    "C12:rejected-expected-answer"
+                };
+                return Step::Violation(class, e);
+            }
+            if spec.0.len() > 1 {
+                st.inc("steps_with_several_reference_states");
+            }
+            for s in &spec.0 {
+                if !before.0.iter().any(|b| b.phase == s.phase) {
+                    st.inc(match s.phase {
+                        Phase::Trial(_) => "ref_switch_to_v5",
+                        Phase::Plain4 => "ref_plain_v4_after_8_answers",
+                        Phase::Conf5 => "ref_v5_confirmed",
+                        Phase::Up(_) => "ref_upgrade_counter_advanced",
+                        _ => "ref_other",
+                    });
+                }
+            }
+            Step::Ok(format!("{}{:?}", if accepted { "accepted " } else { "not-used " }, obs.acts))
+        }
+    }
+}
+
+// ---------------------------------------------------------------------------------------
+// canonical key
+// ---------------------------------------------------------------------------------------
+
+/// Key on which histories are merged. Two histories with equal keys are taken to have the
+/// same future; every component and abstraction:
+/// * `view` is the complete behavioural state of `NtpSource` relevant here (reach, tries,
+///   protocol version incl. `tries_left`, remote/last poll exponent, deny flag, stratum,
+///   NTS cookie count, pending request present).
+///   - `tries` is saturated at 3: the code only evaluates `tries >= 3`.
+///   - the pending request is reduced to present/absent: no time passes in this check, so a
+///     present request is always inside its window; its identifier is random and only ever
+///     compared for equality with an answer the harness derives from the emitted request.
+///   - NOT in the key: reference id, the bloom-filter cursor (only read to build the
+///     ReferenceIdRequest field and the usability snapshot, neither observed here; the
+///     harness never sends ReferenceIdResponse fields so it never moves), the scratch
+///     buffer, cookie *contents* (only their count influences control flow).
+/// * `spec` the set of reference states, `nreq` whether 0, 1 or >= 2 requests exist (which
+///   answer symbols are applicable).
+#[derive(Clone, Debug, PartialEq, Eq, Hash)]
+struct Key {
+    view: View,
+    spec: SpecSet,
+    nreq: u8,
+}
+
+fn key_of(r: &Rig, spec: &SpecSet) -> Key {
+    let mut view = r.view();
+    view.tries = view.tries.min(3);
+    view.pending = view.pending.map(|_| 0);
+    Key { view, spec: spec.clone(), nreq: r.requests.len().min(2) as u8 }
+}
+
+fn trace_of(mode: Mode, alpha: &[Ev], hist: &[u16], last: Option<&Ev>) -> String {
+    let mut codes: Vec<String> = hist.iter().map(|e| alpha[*e as usize].code()).collect();
+    if let Some(e) = last {
+        codes.push(e.code());
+    }
+    format!("{};{}", mode.name(), codes.join(","))
+}
+
+/// Replay a history without judging (it was judged when first explored).
+fn replay_prefix(mode: Mode, alpha: &[Ev], hist: &[u16]) -> (Rig, SpecSet) {
+    let mut r = Rig::new(mode);
+    let mut spec = SpecSet::initial(mode);
+    let mut sink = Local::default();
+    for e in hist {
+        let _ = step(mode, &mut r, &mut spec, &alpha[*e as usize], &mut sink);
+    }
+    (r, spec)
+}
+
+fn explore(ctx: &Ctx, mode: Mode) -> rig::LevelStats {
+    let alpha = alphabet(mode, ctx.quick());
+    let init_key = super::block_on_paused(async {
+        let r = Rig::new(mode);
+        key_of(&r, &SpecSet::initial(mode))
+    });
+    let alpha_ref = &alpha;
+    let stats = rig::level_bfs(
+        init_key,
+        200,
+        |rt, hist| {
+            rt.block_on(async {
+                let mut st = Local::default();
+                let mut out = Vec::new();
+                let (r0, s0) = replay_prefix(mode, alpha_ref, hist);
+                let base = key_of(&r0, &s0);
+                let mut cur = Some((r0, s0));
+                for (ei, ev) in alpha_ref.iter().enumerate() {
+                    if cur.is_none() {
+                        cur = Some(replay_prefix(mode, alpha_ref, hist));
+                    }
+                    let (r, s) = cur.as_mut().unwrap();
+                    match step(mode, r, s, ev, &mut st) {
+                        Step::NotApplicable => {}
+                        Step::Violation(class, what) => {
+                            ctx.violation(class, what, trace_of(mode, alpha_ref, hist, Some(ev)));
+                            st.inc("transitions_violating");
+                            cur = None; // successors of a violating step are not explored
+                        }
+                        Step::Ok(_) => {
+                            let k = key_of(r, s);
+                            if matches!(k.view.pv, Pv::Upgraded) {
+                                st.inc("impl_steps_in_upgraded_state");
+                            }
+                            // A self-loop (key unchanged) lets the same object take the next
+                            // event: exactly as sound as merging on the key.
+                            let same = k == base;
+                            if !same {
+                                ctx.distinct(common::hash_of(&(mode, &k)));
+                                cur = None;
+                            } else {
+                                st.inc("self_loops");
+                            }
+                            out.push((ei as u16, k));
+                        }
+                    }
+                }
+                st.flush(ctx);
+                out
+            })
+        },
+        |depth, width| {
+            if ctx.over_budget() {
+                ctx.cap_hit(&format!("mode {}: budget used up before depth {} (frontier {}); complete below", mode.name(), depth, width));
+                return false;
+            }
+            true
+        },
+    );
+    ctx.add("states", stats.states);
+    ctx.add("transitions", stats.transitions);
+    ctx.add("evaluations", stats.transitions);
+    ctx.max("max_depth", stats.max_depth);
+    ctx.note(
+        &format!("mode_{}", mode.name()),
+        &format!("alphabet {} events, {} states, {} transitions, depth {}, fixpoint {}", alpha.len(), stats.states, stats.transitions, stats.max_depth, stats.fixpoint),
+    );
+    stats
+}
+
+fn replay(ctx: &Ctx, trace: &str) -> String {
+    let Some((m, evs)) = trace.split_once(';') else {
+        return "bad trace".into();
+    };
+    let Some(mode) = Mode::parse(m) else {
+        return "bad mode".into();
+    };
+    super::block_on_paused(async {
+        let mut r = Rig::new(mode);
+        let mut spec = SpecSet::initial(mode);
+        let mut st = Local::default();
+        let mut obs = Vec::new();
+        for code in evs.split(',').filter(|s| !s.is_empty()) {
+            let Some(ev) = Ev::parse(code) else {
+                obs.push(format!("{code}=?"));
+                continue;
+            };
+            match step(mode, &mut r, &mut spec, &ev, &mut st) {
+                Step::NotApplicable => obs.push(format!("{code}=n/a")),
+                Step::Ok(o) => obs.push(format!("{code}={o}|{:?}", r.view().pv)),
+                Step::Violation(class, what) => {
+                    ctx.violation(class, what.clone(), trace);
+                    obs.push(format!("{code}=VIOLATION {class}: {what}"));
+                    break;
+                }
+            }
+        }
+        obs.join(" ; ")
+    })
+}
+
+#[test]
+fn check() {
+    let ctx = Ctx::new("C12");
+    if let Some(t) = common::replay_trace() {
+        let a = replay(&ctx, &t);
+        let b = replay(&ctx, &t);
+        common::report_replay("C12", &a, &b, ctx.violation_count() > 0);
+        return;
+    }
+    ctx.rule(
+        "Explicit-state search to fixpoint over the real NtpSource for 5 configurations (plain V4, V5, automatic, \
+         NTS negotiated V4, NTS negotiated V5). Events: timer; plain: answers {matching, previous request, unrelated id} \
+         x {v3, v4, v4+upgrade marker, v5} x {usable, KISS XXXX, KISS DENY, client mode, stratum 17} (37 events; quick tier, automatic mode: without DENY and stratum 17, 29 events); NTS: \
+         authenticated answers {matching, unrelated id} x {matching, wrong UID} x {v4, v5} x {usable, KISS, DENY} + \
+         unauthenticated, replayed and v3 answers (30 events). Distinct & non-trivial = a (configuration, canonical state) \
+         reached by a transition that changed the state; canonical state = private source state (reach, tries<=3, \
+         protocol version + tries_left, poll exponents, deny flag, stratum, cookie count, request pending) + set of \
+         reference-automaton states.",
+    );
+    ctx.assume("no time passes between events (out-of-window answers are C08's subject); poll limits are the defaults 4..10 and the controller always desires the minimum");
+    ctx.assume("where the statement is silent the reference automaton allows every outcome: KISS / wrong-mode / stratum>16 answers may or may not count as 'matching answer' for the negotiation; an NTPv3 answer to an NTPv4 request may be ignored or treated as NTPv4 without marker; a V4-only source may or may not set the marker");
+    ctx.assume("NTS sources are constructed with ProtocolVersion V4 or V5 only, as nts::KeyExchangeClient does (never V4UpgradingToV5)");
+    let mut all_fix = true;
+    // cheapest configurations first, so that a budget cap can only cut the deepest levels
+    // of the automatic mode
+    for mode in [Mode::V4, Mode::V5, Mode::NtsV4, Mode::NtsV5, Mode::Auto] {
+        let s = explore(&ctx, mode);
+        all_fix &= s.fixpoint;
+    }
+    ctx.sample("auto;T,A:M:4:m:4:1:X:-:- -> UpgradedToV5, next timers send v5, v5, then fall back to plain v4");
+    ctx.sample("auto: 8 x (T, matching usable v4 answer without marker) -> plain v4 without marker from the 9th request on");
+    ctx.exhaustive(all_fix);
+    ctx.finish();
+}
